@@ -41,6 +41,12 @@ func walkTrace(e *env) error {
 			return boundSpec{K: "last7"}
 		case 3:
 			return boundSpec{K: "last30"}
+		case 4:
+			if rng.Intn(3) == 0 {
+				// an "open" bound: a date far in the future or the past (31 Dec 2999, 1 Jan 1000; TLC computes in 32-bit integers: minutes since the epoch must fit)
+				return boundSpec{K: "date", D: []int{357576, -372908}[rng.Intn(2)]}
+			}
+			return boundSpec{K: "date", D: 1 + rng.Intn(70)}
 		default:
 			return boundSpec{K: "date", D: 1 + rng.Intn(70)}
 		}
